@@ -1,11 +1,11 @@
 #!/bin/bash
-# usage: tools/mkseedround.sh <root under /tmp>
+# usage: tools/mkseedround.sh <root under /tmp> [task template]
 # Prepares one round of independently written property-breaking changes: per property a scratch worktree of /repo's
 # HEAD under <root>, the property text (prop_<ID>.txt, nothing from /verif's machinery), the list of what earlier
 # rounds already produced (done_<ID>.txt) and the task text (TASK.md). Sub-agents get only these.
 set -e
-R=$1; mkdir -p "$R"
-sed "s#@ROOT@#$R#g" /verif/tools/seed_task_template.md > "$R/TASK.md"
+R=$1; TPL=${2:-/verif/tools/seed_task_template.md}; mkdir -p "$R"
+sed "s#@ROOT@#$R#g" "$TPL" > "$R/TASK.md"
 python3 - "$R" <<'P'
 import json,glob,os,re,sys
 R=sys.argv[1]
